@@ -9,8 +9,8 @@ const EXTENSIONS: &[fn(&str, &Value) -> Option<Value>] = &[
     crate::ops_json::dispatch,
     crate::ops_hooks::dispatch,
     crate::ops_pure::dispatch,
+    crate::ops_err::dispatch,
 ];
-const EXTENSIONS: &[fn(&str, &Value) -> Option<Value>] = &[crate::ops_err::dispatch];
 
 pub fn s<'a>(req: &'a Value, k: &str) -> &'a str {
     req.get(k).and_then(|v| v.as_str()).unwrap_or("")
